@@ -1,7 +1,8 @@
 (** C12 -- signature files round-trip exactly and foreign files are refused.
     Model/Store.v is the store protocol src/gambit/sigs/hdf5.py speaks to h5py ([create] = the calls of
-    HDF5Signatures.create, [load] = HDF5Signatures.__init__, [load_file] = load_signatures_hdf5 with
-    repo_fixes/C12.diff applied, [load_file_cur] = the function before that fix);
+    HDF5Signatures.create in the order of repo_fixes/C19-marker-last.diff: the format marker is written LAST,
+    [create_v0] = the order before that fix: marker first; [load] = HDF5Signatures.__init__, [load_file] =
+    load_signatures_hdf5 with repo_fixes/C12.diff applied, [load_file_cur] = the function before that fix);
     [wf_coll], [loaded_of], [foreign], [sub_sigs] are defined in Proofs/C12.v. *)
 From Coq Require Import ZArith List Bool.
 From GV Require Import Model.Store Proofs.C12.
@@ -16,6 +17,15 @@ Theorem C12_roundtrip : forall p c, wf_coll c = true ->
              load_file_cur (DHdf st) = SOk (loaded_of c) /\ decode (loaded_of c) = SOk c.(c_sigs).
 Proof. exact C12_roundtrip_l. Qed.
 Print Assumptions C12_roundtrip.
+
+(** the call order before repo_fixes/C19-marker-last.diff (marker first) round-trips too and loads identically:
+    the two orders differ only in what an INTERRUPTED write leaves behind (C19) *)
+Theorem C12_roundtrip_v0 : forall p c, wf_coll c = true ->
+  exists st, create_v0 p c = SOk st /\ load_file (DHdf st) = SOk (loaded_of c) /\
+             load_file_cur (DHdf st) = SOk (loaded_of c) /\
+             sbind (create_v0 p c) load = sbind (create p c) load.
+Proof. exact C12_roundtrip_v0_l. Qed.
+Print Assumptions C12_roundtrip_v0.
 
 (** the whole-array and the per-signature write path produce files that load identically *)
 Theorem C12_paths_agree : forall c, wf_coll c = true ->
